@@ -344,6 +344,7 @@ def _upgrade():
     upgrade(PROPS["C12"])
     upgrade(PROPS["C01"])
     upgrade(PROPS["C13"])
+    upgrade(PROPS["C09"])
 
 
 _upgrade()
